@@ -21,7 +21,7 @@ from __future__ import annotations
 import itertools
 import re
 
-from .. import common, drive, gen, refmodel, xf
+from .. import common, drive, gen, refmodel, render, xf
 from ..model import Form, Row
 from ..refmodel import base_type
 
@@ -38,7 +38,8 @@ STATIC = ["hello", "hello world", "7", "2.5", "-3", "-0.5", "2020-01-31", "12:30
 DYNAMIC = ["now()", "today()", "uuid()", "1 + 2", "3 * 4", "7 div 2", "7 mod 2", "concat('a', 'b')", "${src}", "${src} + 1", "if(${src} = '', 'x', 'y')",
            "once(random())", "'a' | 'b'", "string-length('abc')", "${last-saved#src}"]
 AMBIG = ["a-b", "1-1", "x[1]", "( x )", "a - b", "2020-01-31 extra", "jr://images/x.png"]
-TYPES = ["text", "integer", "decimal", "date", "dateTime", "time", "note", "hidden", "calculate", "select_one l1", "select_multiple l1", "geopoint", "barcode", "image", "range"]
+TYPES = ["text", "integer", "decimal", "date", "dateTime", "time", "note", "hidden", "calculate", "select_one l1", "select_multiple l1", "geopoint", "barcode", "image", "range",
+         "audio", "video", "file"]  # the other upload types: their static default (a file name) is literal content, no jr://images/ prefix
 POSITIONS = ["top", "group", "repeat", "repeat/repeat", "group/repeat/group", "repeat/group/repeat"]
 
 
@@ -124,8 +125,13 @@ def paths_of(form):
     return rm
 
 
-def judge(ctx, form, klass, sig, sample=False):
-    o = drive.convert_form(form)
+class _Given:
+    def __init__(self, xform):
+        self.ok, self.xform = True, xform
+
+
+def judge(ctx, form, klass, sig, sample=False, xform=None):
+    o = drive.convert_form(form) if xform is None else _Given(xform)
     if not o.ok:
         ctx.ctr(f"rejected:{klass}")
         if not o.exc_is_pyxform:
@@ -305,9 +311,46 @@ def run_shard(ctx):
         judge(ctx, form, "random", common.feature_sig(form))
     if ctx.shard == 0:
         include_history(ctx)
+    json_histories(ctx)
     ctx.ctr("dyn_hook_evals", counters.get("dyn", 0))
     for msg in counters.get("dyn_violations", []):
         ctx.viol("hook:default_is_dynamic-disagrees-with-classifier", msg, {"klass": "hook"})
+
+
+def json_histories(ctx):
+    """Defaults and triggered calculations after the survey has been through its JSON form: the same definition dict built twice,
+    and a survey rebuilt from its own dump. The rules of the statement hold for the XForm of every one of them."""
+    import copy
+    import json
+    from pyxform.builder import create_survey_element_from_dict
+    from pyxform.xls2json import workbook_to_json
+    from pyxform.xls2json_backends import get_xlsform
+    for i in range(60 if ctx.tier == "quick" else 600):
+        if not ctx.mine(i):
+            continue
+        rng = ctx.rng("jsonhist", i)
+        form = gen.gen_form(rng, common.rich_cfg(rng, p_default=0.6, p_dyn_default=0.5, p_trigger=0.5, p_repeat=0.3, max_depth=3, p_or_other=0))
+        try:
+            d = workbook_to_json(get_xlsform(render.to_dict(form.to_sheets())), warnings=[], **{k: v for k, v in form.args.items() if k in ("form_name", "default_language")})
+            first = create_survey_element_from_dict(d)
+            x1 = first.to_xml(validate=False, pretty_print=False)
+        except Exception:  # noqa: BLE001 - rejected forms are other checks' business
+            ctx.ctr("rejected:json-history")
+            continue
+        for hist in ("same-dict-built-again", "dump-load", "dump-text-load"):
+            try:
+                if hist == "same-dict-built-again":
+                    sv = create_survey_element_from_dict(d)
+                elif hist == "dump-load":
+                    sv = create_survey_element_from_dict(first.to_json_dict())
+                else:
+                    sv = create_survey_element_from_dict(json.loads(json.dumps(first.to_json_dict())))
+                x = sv.to_xml(validate=False, pretty_print=False)
+            except Exception as e:  # noqa: BLE001
+                ctx.viol(f"json-history:{hist}:raised:{type(e).__name__}", f"{hist}: {str(e)[:200]}", common.witness(form, klass="json-history", history=hist))
+                continue
+            ctx.ctr("json_histories")
+            judge(ctx, form, f"json-history:{hist}", f"jsonhist|{hist}|{common.feature_sig(form)}", xform=x)
 
 
 def include_history(ctx):
@@ -342,6 +385,9 @@ def replay(w):
             return
         if wit.get("klass") == "include":
             include_history(ctx)
+            return
+        if str(wit.get("klass", "")).startswith("json-history"):
+            json_histories(ctx)
             return
         judge(ctx, common.form_from_witness(wit), wit.get("klass", "replay"), "replay")
     return common.replay_with(PROP, w, chk)
